@@ -186,13 +186,21 @@ theorem shift_equivariant_detectBeforePolyt (k : Int) (p : Params) (iso : List I
       = (detectBeforePolyt p iso ext int evs).map (outShift k) :=
   detectBeforePolyt_shift k p iso ext int evs hE hI hP hEnd hD
 
-/-- DEFECT of the real code (translation near the chromosome start): with the internal polyA position absent (−1) the
-    function still takes `min(abs(30 − 80), abs(30 − (−1))) = 31 ≤ max_fake_terminal_exon_len` and declares the terminal
-    exon misaligned; 1000 bases further down the same configuration gives `min(50, 1031) = 50` and nothing is reported.
-    `FarOriginA` (exon ends farther from −1 than the thresholds reach) is what excludes it. -/
+/-- DEFECT of the code BEFORE the fix of the sentinel distance (kept as `detectBeyondPolyaBuggy`; the fixed
+    `detectBeyondPolya` treats an absent position as infinitely far): with the internal polyA position absent (−1) the
+    function took `min(abs(30 − 80), abs(30 − (−1))) = 31 ≤ max_fake_terminal_exon_len` and declared the terminal exon
+    misaligned; 1000 bases further down the same configuration gave `min(50, 1031) = 50` and nothing was reported.
+    (statement moved to the `…Buggy` definition by the C01 builder when /repo was fixed; C11 owner: see report) -/
 theorem detectBeyondPolya_sentinel_arith_witness :
+    detectBeyondPolyaBuggy exParams (shiftL 1000 [(10, 30), (200, 210)]) (shiftPos 1000 80) (shiftPos 1000 (-1))
+        (shiftEvents 1000 [])
+      ≠ (detectBeyondPolyaBuggy exParams [(10, 30), (200, 210)] 80 (-1) []).map (outShift 1000) := by
+  decide
+
+/-- … and the repaired function is equivariant on that input -/
+theorem detectBeyondPolya_sentinel_arith_fixed :
     detectBeyondPolya exParams (shiftL 1000 [(10, 30), (200, 210)]) (shiftPos 1000 80) (shiftPos 1000 (-1)) (shiftEvents 1000 [])
-      ≠ (detectBeyondPolya exParams [(10, 30), (200, 210)] 80 (-1) []).map (outShift 1000) := by
+      = (detectBeyondPolya exParams [(10, 30), (200, 210)] 80 (-1) []).map (outShift 1000) := by
   decide
 
 /-- the same configuration far from the origin is equivariant (hypotheses of `shift_equivariant_detectBeyondPolya`) -/
@@ -251,14 +259,15 @@ theorem shift_equivariant_verifyReadEnds (k : Int) (p : Params) (rp : ReadProf) 
       = (verifyReadEnds p rp I evs).map (shiftEvents k) :=
   verifyReadEnds_shift k p rp I evs h
 
-/-- the `FarOriginA` part of `EndsSafe` is needed (the defect of `detectBeyondPolya_sentinel_arith_witness` seen through
-    `verify_read_ends`; this is the input the harness replays on the real code, relation `S.verify_read_ends`, k = 1000):
-    near the origin the read end is "corrected" to the isoform end, 1000 bases further it is an alternative polyA site -/
-theorem verifyReadEnds_sentinel_arith_witness :
+/-- the former witness `verifyReadEnds_sentinel_arith_witness` (the defect of `detectBeyondPolyaBuggy` seen through
+    `verify_read_ends`, relation `S.verify_read_ends`, k = 1000): since the fix of the sentinel distance in /repo the model
+    AND the code are equivariant on this input although `FarOriginA` fails — the `FarOriginA/T` part of `EndsSafe` is no
+    longer needed (restated by the C01 builder; C11 owner: see report) -/
+theorem verifyReadEnds_sentinel_arith_fixed :
     ((Gene.fromModels ([⟨[(10, 30), (200, 210)], .plus⟩].map (shiftIsoform 1000))).bind (fun g =>
         (constructProfiles g exParams (shiftL 1000 [(10, 30)]) (shiftPolyA 1000 ⟨80, -1, -1, -1⟩)).bind (fun rp =>
           g.isos[0]?.bind (fun I => verifyReadEnds exParams rp I []))))
-      ≠ ((Gene.fromModels [⟨[(10, 30), (200, 210)], .plus⟩]).bind (fun g =>
+      = ((Gene.fromModels [⟨[(10, 30), (200, 210)], .plus⟩]).bind (fun g =>
         (constructProfiles g exParams [(10, 30)] ⟨80, -1, -1, -1⟩).bind (fun rp =>
           g.isos[0]?.bind (fun I => verifyReadEnds exParams rp I [])))).map (shiftEvents 1000) := by
   decide +kernel
